@@ -345,6 +345,12 @@ mut("C03 search loop that answers true when NO edge touches the vertex", [
     (PRE, "    /// Get all connected components of a graph, used to compute loop number of possible disconnected graph", "    fn component_touches(&self, component: &TropicalSubGraphId, v: u8) -> bool {\n        for i in component.contains_edges() {\n            if self.topology[i].contains_vertex(v) {\n                return false;\n            }\n        }\n        true\n    }\n\n    /// Get all connected components of a graph, used to compute loop number of possible disconnected graph"),
 ], C03="C03-e")
 
+# ---- conditional push in a loop is a filter ----
+_NB_OLD = "        edges_in_subgraph\n            .iter()\n            .filter(|&&i| self.are_neighbours(edge_id, i))\n            .copied()\n            .collect()"
+mut("N: neighbour filter written as a push loop", [(PRE, _NB_OLD, "        let mut out = Vec::new();\n        for &i in edges_in_subgraph {\n            if self.are_neighbours(edge_id, i) {\n                out.push(i);\n            }\n        }\n        out")], C03=None)
+mut("C03 neighbour push loop keeps the NON-neighbours", [(PRE, _NB_OLD, "        let mut out = Vec::new();\n        for &i in edges_in_subgraph {\n            if !self.are_neighbours(edge_id, i) {\n                out.push(i);\n            }\n        }\n        out")], C03="C03-g")
+mut("N: loop number without the empty-set guard", [(PRE, "        if edges_in_subgraph.is_empty() {\n            return 0;\n        }\n\n        let connected_components = self.get_connected_components(edges_in_subgraph);", "        let connected_components = self.get_connected_components(edges_in_subgraph);")], C03=None, C05=None, C07=None)
+
 # ---- composite properties (C01, C02): expectations derived mechanically from the owners' rows ----
 # A row that makes a selected owner clause fire must make the composite fire under the restated id; a row on which an owner must stay
 # silent must leave the composite silent (its clauses are a subset of the owners').
